@@ -456,4 +456,82 @@ def getobj (P : Prims) (h : Handler) (loc : Loc) (objid genno : Nat) (o : Obj) :
   | .direct => decipherAll (decrypt P h objid genno false) (decrypt P h objid genno) o
   | _ => o
 
+/-! ## instrumented traversal: which bytes go through the cipher, and how often -/
+
+/-- One call of `handler.decrypt`: on a string (`attrs=None`) or on a stream payload (`attrs` given;
+    `isMeta` = its Type is /Metadata). -/
+inductive Call where
+  | str (b : Bytes)
+  | payload (isMeta : Bool) (raw : Bytes)
+  deriving DecidableEq, Repr
+
+mutual
+/-- `decipher_all` + the decipher step of `PDFStream.decode`, returning also the list of cipher
+    calls in traversal order.  `decipherAll` is its first projection (`decipherAllT_fst`). -/
+def decipherAllT (f : Bytes → Bytes) (g : Bool → Bytes → Bytes) : Obj → Obj × List Call
+  | .str b => if b.isEmpty then (.str b, []) else (.str (f b), [.str b])
+  | .atom a => (.atom a, [])
+  | .arr xs => let r := decipherListT f g xs; (.arr r.1, r.2)
+  | .dict kvs => let r := decipherKVsT f g kvs; (.dict r.1, r.2)
+  | .stream attrs raw =>
+    if attrsType attrs = some atomXRef then (.stream attrs raw, [])
+    else
+      let r := decipherKVsT f g attrs
+      let m : Bool := attrsType attrs = some atomMetadata
+      (.stream r.1 (g m raw), r.2 ++ [.payload m raw])
+def decipherListT (f : Bytes → Bytes) (g : Bool → Bytes → Bytes) : List Obj → List Obj × List Call
+  | [] => ([], [])
+  | x :: xs =>
+    let a := decipherAllT f g x
+    let b := decipherListT f g xs
+    (a.1 :: b.1, a.2 ++ b.2)
+def decipherKVsT (f : Bytes → Bytes) (g : Bool → Bytes → Bytes) :
+    List (Bytes × Obj) → List (Bytes × Obj) × List Call
+  | [] => ([], [])
+  | (k, v) :: rest =>
+    let a := decipherAllT f g v
+    let b := decipherKVsT f g rest
+    ((k, a.1) :: b.1, a.2 ++ b.2)
+end
+
+mutual
+/-- What the property demands: every non-empty string of the object exactly once (at any nesting
+    depth, also inside a stream dictionary), the payload of a stream once, nothing for a
+    cross-reference stream. -/
+def expectedCalls : Obj → List Call
+  | .str b => if b.isEmpty then [] else [.str b]
+  | .atom _ => []
+  | .arr xs => expectedCallsList xs
+  | .dict kvs => expectedCallsKVs kvs
+  | .stream attrs raw =>
+    if attrsType attrs = some atomXRef then []
+    else expectedCallsKVs attrs ++ [.payload (attrsType attrs = some atomMetadata) raw]
+def expectedCallsList : List Obj → List Call
+  | [] => []
+  | x :: xs => expectedCalls x ++ expectedCallsList xs
+def expectedCallsKVs : List (Bytes × Obj) → List Call
+  | [] => []
+  | (_, v) :: rest => expectedCalls v ++ expectedCallsKVs rest
+end
+
+/-- The object cache of `PDFDocument` (`_cached_objs`), state carried across `getobj` calls. -/
+structure DocState where
+  cache : List (Nat × Obj) := []
+
+def cacheLookup (objid : Nat) : List (Nat × Obj) → Option Obj
+  | [] => none
+  | (k, o) :: rest => if k = objid then some o else cacheLookup objid rest
+
+/-- `PDFDocument.getobj` with its cache: result, new state, cipher calls made by this call. -/
+def getobjSt (P : Prims) (h : Handler) (caching : Bool) (st : DocState) (loc : Loc)
+    (objid genno : Nat) (stored : Obj) : Obj × DocState × List Call :=
+  match cacheLookup objid st.cache with
+  | some o => (o, st, [])
+  | none =>
+    let r : Obj × List Call :=
+      match loc with
+      | .direct => decipherAllT (decrypt P h objid genno false) (decrypt P h objid genno) stored
+      | _ => (stored, [])
+    (r.1, if caching then { cache := (objid, r.1) :: st.cache } else st, r.2)
+
 end PdfVerif.Crypt
